@@ -11,13 +11,23 @@ static MESSAGES: Mutex<Vec<String>> = Mutex::new(Vec::new());
 
 impl log::Log for Sink {
     fn enabled(&self, metadata: &log::Metadata<'_>) -> bool {
-        metadata.level() <= log::Level::Warn
+        metadata.level() <= log::max_level()
     }
 
     fn log(&self, record: &log::Record<'_>) {
-        if record.level() <= log::Level::Warn {
+        if record.level() <= log::max_level() {
             let _g = MonGuard::new();
-            let msg = format!("{}: {}", record.target(), record.args());
+            let mut msg = format!("{}: {}", record.target(), record.args());
+            if log::max_level() == log::LevelFilter::Trace {
+                struct V<'a>(&'a mut String);
+                impl<'kvs> log::kv::VisitSource<'kvs> for V<'_> {
+                    fn visit_pair(&mut self, key: log::kv::Key<'kvs>, value: log::kv::Value<'kvs>) -> Result<(), log::kv::Error> {
+                        self.0.push_str(&format!(" {key}={value:?}"));
+                        Ok(())
+                    }
+                }
+                let _ = record.key_values().visit(&mut V(&mut msg));
+            }
             MESSAGES.lock().unwrap_or_else(|e| e.into_inner()).push(msg);
         }
     }
@@ -27,7 +37,9 @@ impl log::Log for Sink {
 
 pub fn install() {
     let _ = log::set_logger(&Sink);
-    log::set_max_level(log::LevelFilter::Warn);
+    // Debugging aid: VERIF_LOG=trace collects everything a10 logs.
+    let all = std::env::var("VERIF_LOG").is_ok_and(|v| v == "trace");
+    log::set_max_level(if all { log::LevelFilter::Trace } else { log::LevelFilter::Warn });
 }
 
 pub fn take() -> Vec<String> {
